@@ -1443,6 +1443,12 @@ func (rn *runner) step() {
 			// predecessor and carries its certificate, and everyone precommits whatever proposal the mirror holds
 			rn.stats["script_fork_attempt"]++
 			rn.script = []string{"propose", "precommit-nil-one", "precommit-most", "late-fork-precommits", "propose-fork", "precommit-all", "gread"}
+		case y == 11 && rn.crashes:
+			// a next-round prevote message that crosses the round-skip threshold is cut short after its FIRST store write (the
+			// round store has the votes, the stored position is still the old round), the mirror restarts and the message is
+			// delivered again; only reachable with -template 11 (it does not take part in the random choice above)
+			rn.stats["script_crash_between_vote_write_and_position_write"]++
+			rn.script = []string{"propose", "crash1-nextround-all", "gread", "precommit-one"}
 		case y == 5:
 			// a commit attempt made of ONE validator's precommit filed under every key id
 			rn.stats["script_one_signature_for_all"]++
@@ -2063,6 +2069,13 @@ func (rn *runner) scripted(op string, v, c *tmconsensus.VersionedRoundView) bool
 		target = string(phs[len(phs)-1].Header.Hash)
 	}
 	switch op {
+	case "crash1-nextround-all":
+		if rn.crashes && rn.pendingCrash < 0 {
+			rn.pendingCrash = 1
+			rn.bud.arm(1)
+			rn.stats["crash_budget_1_scripted"]++
+		}
+		rn.doVotes(kindPrevote, H, R+1, pkh, []voteEntry{{"", rn.mkSigs(cur, kindPrevote, H, R+1, "", allIdx(n), 0)}})
 	case "nextround-all":
 		rn.doVotes(kindPrevote, H, R+1, pkh, []voteEntry{{"", rn.mkSigs(cur, kindPrevote, H, R+1, "", allIdx(n), 0)}})
 	case "enter-voting?":
